@@ -74,8 +74,8 @@ def run(ctx):
     core.import_ecdsa()
     quick = ctx.tier == "quick"
     rnd = random.Random(ctx.seed)
-    plan = [("T23", "all"), ("T43", "some"), ("T263", "few"), ("T251", "few")] if quick else \
-           [("T23", "all"), ("T43", "all"), ("T29", "all"), ("T41", "all"), ("T263", "some"), ("T257", "some"),
+    plan = [("T23", "all"), ("T43", "some"), ("T43z", "some"), ("T263", "few"), ("T251", "few")] if quick else \
+           [("T23", "all"), ("T43", "all"), ("T43z", "all"), ("T29", "all"), ("T41", "all"), ("T263", "some"), ("T257", "some"),
             ("T251", "some")]
     for cid, how in plan:
         p, a, b, n, G, h = toy.params(cid)
@@ -107,7 +107,7 @@ def run(ctx):
     production(ctx, quick, rnd)
     ctx.rule = ("events = (d, k, digest, allow_truncate) on toy curves, each run through sign_digest with 3 plain + 3 low-S "
                 "encoders, sign() with an identity hash, sign_number, and the deterministic entry points (k recorded); "
-                "T23: every d, k in [1, n-1]; other curves structured/seeded; TLC recomputes Sign(d, k, leftmost-bits(digest)) "
+                "T23: every d, k in [1, n-1]; other curves structured/seeded; T43z = T43 with the base point object given in a projective scaling Z = 5; TLC recomputes Sign(d, k, leftmost-bits(digest)) "
                 "and dG from ECDSA.tla; production: on the 17 curves the e actually used (solved from s k = e + r d) must equal the "
                 "leftmost-bits value computed by TLC on bytes for digests of 1..2*baselen+3 bytes, and the s-equation holds with a "
                 "quotient witness; non-trivial = distinct (curve, d, k, digest, allow)")
